@@ -5,8 +5,17 @@ from .c01 import mqtt_match
 
 PROP = "C05"
 MODULE = "GmqttVerif.Properties.C05"
-THEOREMS = ["GmqttVerif.Broker.session_present_iff", "GmqttVerif.Broker.expiry_in_force", "GmqttVerif.Broker.resume_keeps_state",
-            "GmqttVerif.Broker.fresh_session_empty", "GmqttVerif.Broker.one_connection_per_id", "GmqttVerif.Broker.displaced_gets_nothing"]
+THEOREMS = ["GmqttVerif.Broker.session_present_iff",
+            "GmqttVerif.Broker.expiry_in_force",
+            "GmqttVerif.Broker.disconnect_sets_deadline",
+            "GmqttVerif.Broker.resume_keeps_state",
+            "GmqttVerif.Broker.fresh_session_empty",
+            "GmqttVerif.Broker.reachable_wellformed",
+            "GmqttVerif.Broker.one_connection_per_id",
+            "GmqttVerif.Broker.displaced_gets_nothing",
+            "GmqttVerif.Takeover.takeover_exclusive",
+            "GmqttVerif.Takeover.register_only_when_free",
+            "GmqttVerif.Takeover.takeover_as_is_broken"]
 COMPS = ["broker"]
 
 def gen(rng):
